@@ -439,4 +439,57 @@ example : matchesPattern [nm "gen", nm "a.py"] (Form.anyDirName (nm "gen")).rend
     hardExcluded [] [nm "scripts", nm "build"] = false ∧
     hardExcluded [nm "build"] [nm "x.py"] = true := by decide
 
+/-! ## Several targets -/
+
+theorem nodup_eraseDups {α : Type} [BEq α] [LawfulBEq α] : (l : List α) → l.eraseDups.Nodup
+  | [] => by simp
+  | a :: as => by
+    rw [List.eraseDups_cons, List.nodup_cons]
+    have : (as.filter fun b => !b == a).length < (a :: as).length :=
+      Nat.lt_succ_of_le (List.length_filter_le _ as)
+    refine ⟨?_, nodup_eraseDups _⟩
+    simp [List.mem_eraseDups, List.mem_filter]
+termination_by l => l.length
+
+/-- **every file at most once**, however the targets overlap (a directory and a file in it, a directory
+    named twice, a directory and one of its sub-directories) -/
+theorem lintedTargets_nodup (recursive : Bool) (pats : List (List Char)) (t : Nodes) (ts : List Target) :
+    (lintedTargets recursive pats t ts).Nodup := nodup_eraseDups _
+
+/-- **the run lints exactly the union of what each target contributes** -/
+theorem mem_lintedTargets (recursive : Bool) (pats : List (List Char)) (t : Nodes) (ts : List Target) (p : Path) :
+    p ∈ lintedTargets recursive pats t ts ↔ ∃ tg ∈ ts, p ∈ lintedOne recursive pats t tg := by
+  simp [lintedTargets, List.mem_eraseDups, List.mem_flatMap]
+
+theorem walkTop_length : (t : Nodes) → ∀ p ∈ walkTop t, p.length = 1
+  | .nil, p, h => by simp [walkTop] at h
+  | .cons (.file n) t, p, h => by
+    simp only [walkTop, List.mem_append] at h
+    rcases h with h | h
+    · split at h <;> simp_all
+    · exact walkTop_length t p h
+  | .cons (.dir _ _) t, p, h => by
+    simp only [walkTop] at h
+    exact walkTop_length t p h
+
+/-- **`--no-recursive` holds for every directory target of a run**: a directory contributes only its direct
+    children, also when it is one of several targets -/
+theorem nonrecursive_direct_children (pats : List (List Char)) (t : Nodes) (d : Path) (p : Path)
+    (h : p ∈ lintedOne false pats t (.dir d)) : p.length = d.length + 1 := by
+  simp only [lintedOne] at h
+  cases hs : subtreeAt d t with
+  | none => simp [hs] at h
+  | some s =>
+    simp only [hs, List.mem_map] at h
+    obtain ⟨q, hq, rfl⟩ := h
+    have : q ∈ walkTop s := by
+      simp only [linted, collect, Bool.false_eq_true, if_false, List.mem_filter] at hq
+      exact hq.1
+    simp [walkTop_length s q this]
+
+/-- one directory target that is the project root is the single-target run -/
+theorem lintedTargets_root (recursive : Bool) (pats : List (List Char)) (t : Nodes) :
+    lintedTargets recursive pats t [.dir []] = (linted recursive [] pats t).eraseDups := by
+  simp [lintedTargets, lintedOne, subtreeAt]
+
 end ThaiLintModel.C14
